@@ -68,17 +68,17 @@ func (t *Ty) Zero() string {
 // Expr kinds: int bool str errlit nil var bin not sliceLit xmapLit index len call cmdCall probe
 // listCompr mapCompr selCompr existsCompr errBang errQ errDflt
 type Expr struct {
-	K      string
-	N      int
-	B      bool
-	S      string // name / string literal / callee / operator
-	T, T2  *Ty
-	Args   []*Expr
-	KVs    [][2]*Expr
-	Fors   []*Phrase
-	Tys    []*Ty
-	Two    bool
-	D      *Expr
+	K     string
+	N     int
+	B     bool
+	S     string // name / string literal / callee / operator
+	T, T2 *Ty
+	Args  []*Expr
+	KVs   [][2]*Expr
+	Fors  []*Phrase
+	Tys   []*Ty
+	Two   bool
+	D     *Expr
 }
 
 type Phrase struct {
@@ -124,18 +124,18 @@ type Prog struct {
 
 // ---- constructors ----
 
-func Int(n int) *Expr        { return &Expr{K: "int", N: n} }
-func Bool(b bool) *Expr      { return &Expr{K: "bool", B: b} }
-func Str(s string) *Expr     { return &Expr{K: "str", S: s} }
-func ErrLit(s string) *Expr  { return &Expr{K: "errlit", S: s} }
-func Nil() *Expr             { return &Expr{K: "nil"} }
-func Zero(t *Ty) *Expr       { return &Expr{K: "zero", T: t} }
-func Var(x string) *Expr     { return &Expr{K: "var", S: x} }
+func Int(n int) *Expr       { return &Expr{K: "int", N: n} }
+func Bool(b bool) *Expr     { return &Expr{K: "bool", B: b} }
+func Str(s string) *Expr    { return &Expr{K: "str", S: s} }
+func ErrLit(s string) *Expr { return &Expr{K: "errlit", S: s} }
+func Nil() *Expr            { return &Expr{K: "nil"} }
+func Zero(t *Ty) *Expr      { return &Expr{K: "zero", T: t} }
+func Var(x string) *Expr    { return &Expr{K: "var", S: x} }
 func Bin(op string, a, b *Expr) *Expr {
 	return &Expr{K: "bin", S: op, Args: []*Expr{a, b}}
 }
-func Not(a *Expr) *Expr                  { return &Expr{K: "not", Args: []*Expr{a}} }
-func SliceLit(t *Ty, es ...*Expr) *Expr  { return &Expr{K: "sliceLit", T: t, Args: es} }
+func Not(a *Expr) *Expr                 { return &Expr{K: "not", Args: []*Expr{a}} }
+func SliceLit(t *Ty, es ...*Expr) *Expr { return &Expr{K: "sliceLit", T: t, Args: es} }
 func MapLit(k, v *Ty, kvs ...[2]*Expr) *Expr {
 	return &Expr{K: "xmapLit", T: k, T2: v, KVs: kvs}
 }
@@ -171,9 +171,11 @@ func Set1(x string, e *Expr) *Stmt          { return &Stmt{K: "assign", Xs: []st
 func SetIndex(m string, k, v *Expr) *Stmt   { return &Stmt{K: "setIndex", M: m, Es: []*Expr{k, v}} }
 func VarDecl(x string, t *Ty) *Stmt         { return &Stmt{K: "varDecl", M: x, T: t} }
 func ExprS(e *Expr) *Stmt                   { return &Stmt{K: "expr", Es: []*Expr{e}} }
-func If(c *Expr, thn, els []*Stmt) *Stmt    { return &Stmt{K: "if", FK: "cond", C: c, Body: thn, Else: els} }
-func Ret(es ...*Expr) *Stmt                 { return &Stmt{K: "ret", Es: es} }
-func Panic(e *Expr) *Stmt                   { return &Stmt{K: "panic", Es: []*Expr{e}} }
+func If(c *Expr, thn, els []*Stmt) *Stmt {
+	return &Stmt{K: "if", FK: "cond", C: c, Body: thn, Else: els}
+}
+func Ret(es ...*Expr) *Stmt { return &Stmt{K: "ret", Es: es} }
+func Panic(e *Expr) *Stmt   { return &Stmt{K: "panic", Es: []*Expr{e}} }
 func Send(a string, spread bool, vs ...*Expr) *Stmt {
 	return &Stmt{K: "send", M: a, Es: vs, Spread: spread}
 }
